@@ -31,7 +31,7 @@ SPEC = dict(
           "Change.Status, IsReady, ReadyTime, Err and the task statuses are recorded and the Coq model replays the event "
           "list. The monitor checks on the observed values: Status equals the independently written aggregate in every observation, Wait branch included: undo chains whose far-end undo handler answers Wait{Undone}, parked lanes and 25% typed Wait answers are generated (memo-free "
           "blocked-on-Wait statement + priority list), IsReady <-> ready time set <-> every task ready, once ready the "
-          "change stays ready with a ready status, Err names exactly the failed tasks, each with the error it failed with (handlers may log ERROR lines of their own and ask for Retry before failing), no panic "
+          "change stays ready with a ready status, Err names exactly the failed tasks, each with the error it failed with (handlers may log ERROR lines of their own and ask for Retry before failing; error texts contain format verbs such as `100% full`, `%s`, `%d%%`), no panic "
           "outside a user abort. f11: graphs of 1-4 tasks run for 0-10 random steps with a 15% chance of Change.Abort per "
           "step, stopping at the abort; first case is the scripted witness [C waits A,B; A,B done; abort]. Its monitor "
           "flags every abort of an UNREADY change that panicked (finding 11). Non-trivial = the change settled or panicked."),
